@@ -11,6 +11,19 @@ COMMON_ASSUMPTIONS = [
 ]
 
 PROPS = {
+    "C01": {
+        "level": "exploration",
+        "rule": "random points of the Prio3 configuration lattice (type x field x bound at bit-width edges x length x chunk length "
+                "dividing or not x aggregators 2..254 x proofs 1..255 x XOF) each with a batch of in-range measurements incl. extremes, "
+                "sharded with OS or scripted randomness (all-zero/all-one/random), every message through its wire encoding; "
+                "distinct = distinct (type parameters, aggregators, proofs, XOF) configurations that completed a batch",
+        "assumptions": COMMON_ASSUMPTIONS + ["reference aggregate computed in plain u128 arithmetic mod p",
+                                             "context strings stay within the XOFs' documented dst length limits"],
+        "min_counters": {"reports_verified": 1000, "configs_partial_last_chunk": 10, "configs_helper_index_ge_3": 10, "configs_multiproof": 10},
+        "technique": "runtime monitoring of honest end-to-end executions against a plain-integer reference aggregate, with a wire interposer on every message and a panic/overflow monitor",
+        "level_text": "Thousands (quick) to hundreds of thousands (thorough) of distinct Prio3 instantiations are executed end to end on batches of valid measurements; each report must be accepted by all aggregators, per-report output shares must sum to the plain contribution, and the unsharded aggregate must equal the plain aggregate mod p; encode_measurement is compared with a spec-level reference encoding.",
+        "level_note": "Held on the sampled configuration points only. Trusted: harness reference models (zoo.rs).",
+    },
     "C09": {
         "level": "exploration",
         "rule": "Part A: every operand pair of every listed (word size, prime) instantiation of the generic Montgomery "
